@@ -2402,3 +2402,71 @@ func checkConstLabelSlotsPaired(c *core.Ctx) {
 		fmt.Sprintf("%d uses, slot and data are paired one to one", n),
 		strings.Join(bad, "; ")+": whichever use is lowered first in a function decides the bytes behind the label, the other instruction computes with the wrong constant (only when both occur in one function)")
 }
+
+// checkFramePushedBeforeEntryPoll (R20.17): the interpreter pushes the frame of a function before its entry-time poll of the
+// closed flag: the function has had its Before by then, and Abort is delivered to the functions that have a frame.
+func checkFramePushedBeforeEntryPoll(c *core.Ctx) {
+	p := c.Pkg("internal/engine/interpreter")
+	if p == nil {
+		return
+	}
+	loop := interpExecLoopName(p)
+	n := 0
+	for _, fn := range moduleFns(c, "internal/engine/interpreter") {
+		if fn.Parent() != nil || fn.Name() != loop {
+			continue
+		}
+		var push, poll ssa.Instruction
+		pollsClosed := func(f *ssa.Function, depth int) bool {
+			if f == nil {
+				return false
+			}
+			if f.Name() == "FailIfClosed" {
+				return true
+			}
+			if depth > 0 || f.Blocks == nil || f.Pkg != fn.Pkg {
+				return false
+			}
+			for _, b := range f.Blocks {
+				for _, in := range b.Instrs {
+					if call, ok := in.(*ssa.Call); ok {
+						if sc := call.Common().StaticCallee(); sc != nil && sc.Name() == "FailIfClosed" {
+							return true
+						}
+					}
+				}
+			}
+			return false
+		}
+		// in program order of the function's entry region: the first push and the first poll
+		for _, b := range fn.Blocks {
+			for _, in := range b.Instrs {
+				call, ok := in.(*ssa.Call)
+				if !ok {
+					continue
+				}
+				sc := call.Common().StaticCallee()
+				if sc == nil {
+					continue
+				}
+				if sc.Name() == "pushFrame" && push == nil {
+					push = in
+				}
+				if pollsClosed(sc, 0) && poll == nil {
+					poll = in
+				}
+			}
+		}
+		if push == nil || poll == nil {
+			continue
+		}
+		n++
+		before := instrBefore(push, poll) && !instrBefore(poll, push)
+		c.Check(before, "R20.17", "interpreter "+fn.Name()+": the frame is pushed before the entry-time poll of the closed flag", push.Pos(),
+			"pushFrame precedes the first FailIfClosed of the function",
+			"the closed flag is polled (and may panic) before the frame of the entered function is pushed: the function got its Before, but the unwinding delivers Abort only to functions with a frame, so it receives neither After nor Abort")
+	}
+	if n == 0 {
+		c.Undecided("R20.17", "interpreter function entry (pushFrame and the entry poll)", 0, "not found")
+	}
+}
